@@ -1485,23 +1485,30 @@ def _handle_unwind_stage(in_collection, unused_database, options):
     should_preserve_null_and_empty = options.get('preserveNullAndEmptyArrays')
     include_array_index = options.get('includeArrayIndex')
     unwound_collection = []
+
+    def _preserved(doc):
+        # A document that is kept although it has nothing to unwind has a null index.
+        if include_array_index:
+            doc = helpers.set_value_by_dot(copy.deepcopy(doc), include_array_index, None)
+        return doc
+
     for doc in in_collection:
         try:
             array_value = helpers.get_value_by_dot(doc, path)
         except KeyError:
             if should_preserve_null_and_empty:
-                unwound_collection.append(doc)
+                unwound_collection.append(_preserved(doc))
             continue
         if array_value is None:
             if should_preserve_null_and_empty:
-                unwound_collection.append(doc)
+                unwound_collection.append(_preserved(doc))
             continue
         if array_value == []:
             if should_preserve_null_and_empty:
                 new_doc = copy.deepcopy(doc)
                 # We just ran a get_value_by_dot so we know the value exists.
                 helpers.delete_value_by_dot(new_doc, path)
-                unwound_collection.append(new_doc)
+                unwound_collection.append(_preserved(new_doc))
             continue
         if isinstance(array_value, list):
             iter_array = enumerate(array_value)
